@@ -37,6 +37,14 @@ def dataset(spec):
     kind = spec[0]
     if kind == 'const':
         return np.full(spec[2], float(spec[1]))
+    if kind == 'alternating':
+        n_ = spec[3]
+        xs = stats.norm.ppf(A.midpoints(n_)) * spec[2] + spec[1]
+        half = (n_ + 1) // 2
+        out_ = np.empty(n_)
+        out_[0::2] = xs[:half]                 # lower half on the even positions, upper half on the odd ones
+        out_[1::2] = xs[half:]
+        return out_
     if kind == 'int8span':
         # an int8 column spanning more than 127: max - min overflows in int8 arithmetic (a candidate may end up with a nan score)
         return np.round(np.linspace(-100, 100, spec[3])).astype(np.int8)
@@ -92,6 +100,10 @@ def make_model(spec, data=None, random_state=None):
             lo, hi = float(np.min(data)), float(np.max(data))
             w = hi - lo
             return U.TruncatedGaussian(minimum=lo - 0.25 * w, maximum=hi + 0.5 * w, **kw)
+        if len(spec) > 1 and spec[1] == 'wide-bounds':
+            # bounds far outside anything the fitted normal can reach (|standardised bound| > 60)
+            m, sd = float(np.mean(data)), float(np.std(data)) or 1.0
+            return U.TruncatedGaussian(minimum=m - 80 * sd, maximum=m + 60 * sd, **kw)
         return U.TruncatedGaussian(**kw)
     if kind == 'kde':
         _, bw, ss, weighted = spec
